@@ -40,6 +40,12 @@ var v0Base = []string{
 	`car`, `(lambda (x) x)`, `(lambda (&rest xs) xs)`, `(lambda () 1)`, `if`, `defun`,
 	// tagged values and the type of types
 	`(progn (deftype c03t (v) v) (new c03t 1))`, `lisp:typedef`,
+	// forged tags: the type of types is an ordinary typedef, so a program can wrap ANY payload in the typedef tag, and
+	// can tag a value with the name of a built-in type
+	`(new (new lisp:typedef 'lisp:typedef (lambda (x) x)) 42)`, `(new (new lisp:typedef 'lisp:typedef (lambda (x) x)) ())`,
+	`(new (new lisp:typedef 'lisp:typedef (lambda (x) x)) (list 'a))`, `(new (new lisp:typedef 'lisp:typedef (lambda (x) x)) (list 'a 7))`,
+	`(new (new lisp:typedef 'lisp:typedef (lambda (x) x)) (list 5 car 6))`,
+	`(new (new lisp:typedef 'error (lambda (x) x)) 1)`, `(new (new lisp:typedef 'sorted-map (lambda (x) x)) (vector))`,
 	// natives reachable from lisp
 	`testing:test-suite`, `json:null`,
 	// host-built values
@@ -151,6 +157,51 @@ func othersAlpha(c *callable, pos, a int) []string {
 
 func slotDefault(c *callable, pos int) string {
 	return othersAlpha(c, pos, 1)[0]
+}
+
+// ---------------------------------------------------------------------------
+// Numeric edge alphabet N (space NUM).  V0 holds a handful of numbers and the
+// level-0 sweep lets at most one or two positions leave the small "others"
+// alphabet, so a call whose THREE arguments are all unusual numbers -- a start,
+// a stop and a step, an index pair and a count -- is never built there.  N is
+// chosen by the boundaries at which the two numeric representations change
+// behaviour, not by any one builtin:
+//
+//	the identities and the sign            0  1  -1  -0.0
+//	the ends of int                        MaxInt64  MinInt64   (x+1 wraps)
+//	the end of exact floats                2^53 as int and as float, 2^53+1 as int (not
+//	                                       representable), 2^53+2 as float (the next float):
+//	                                       at and above 2^53, x+1 == x and x+0.5 == x
+//	the end of float->int conversion       2^63 as float (int(x) is out of range)
+//	fractions                              0.5 (exact), 5e-324 (the smallest positive
+//	                                       float: 1/x is +Inf, x+y == y)
+//	the ends of float                      1e308 (x+x is +Inf), NaN (every comparison is
+//	                                       false), +Inf, -Inf
+//
+// `2`, the default of an unnamed formal, is deliberately NOT a member: the
+// strata of numPlan are keyed by the set of positions holding a member of N.
+var numEdge = []string{
+	`0`, `1`, `-1`,
+	`9007199254740992`, `9007199254740993`, `9223372036854775807`, `-9223372036854775808`,
+	`0.5`, `-0.0`, `5e-324`,
+	`9007199254740992.0`, `9007199254740994.0`, `9223372036854775808.0`, `1e308`,
+	`(- math:inf math:inf)`, `math:inf`, `math:-inf`,
+}
+
+// numEdgeMore is added in the thorough tier: the 32-bit boundaries, a second
+// scale of absorbed steps (ulp(1e16) = 2, ulp(1e300) is astronomically large),
+// negative and inexact fractions, and a small count that is not the default.
+var numEdgeMore = []string{
+	`3`, `2147483648`, `4294967296`, `-9007199254740993`,
+	`1.0`, `-0.5`, `0.1`, `1e-9`, `1e16`, `-1e308`,
+}
+
+func numAlphabet(thorough bool) []string {
+	out := append([]string(nil), numEdge...)
+	if thorough {
+		out = append(out, numEdgeMore...)
+	}
+	return out
 }
 
 // ---------------------------------------------------------------------------
